@@ -256,7 +256,7 @@ def run_check(prop, tier, verif_seed, runs_override=None):
         pname, mode, nq, nt, opts = wl[:5]
         accept = wl[5] if len(wl) > 5 else ()
         n = runs_override or (nq if tier == "quick" else nt)
-        cap = 75 if tier == "quick" else min(900, 2400 // len(cfg["workloads"]))
+        cap = min(75, 450 // len(cfg["workloads"])) if tier == "quick" else min(900, 2400 // len(cfg["workloads"]))
         batch = driver.batch_run(prop, pname, mode, n, tier, verif_seed, opts=opts, wall_cap=cap, accept=accept)
         batches.append((pname, mode, opts, batch))
         print(
